@@ -363,6 +363,7 @@ theorem invK_step {c : Conn α} (hw : Inv c) (h : InvK c) (l : Label α) : InvK 
   | get hdr ver budget => exact invK_get hw h _ _ _
   | sclose req retry => exact invK_sclose h _ _
   | «end» => exact h
+  | evict _ _ => exact h
 
 theorem invK_runFrom {c : Conn α} (hw : Inv c) (h : InvK c) (ls : List (Label α)) : InvK (run c ls) := by
   induction ls generalizing c with
